@@ -30,7 +30,8 @@ def main():
     if os.path.exists(kf):
         for f in json.load(open(kf)).get("findings", []):
             if f.get("status") == "fixed" and f.get("commit"):
-                fixes.append(f["commit"])
+                if f["commit"] not in fixes:
+                    fixes.append(f["commit"])
     checks, na = [], []
     for p in props:
         pid = p["id"]
@@ -68,7 +69,7 @@ def main():
             "enable": "none needed: the checks only read the source of /repo/adcgen; no hook "
                       "or instrumentation exists in /repo",
             "baseline_off_cmd": BASELINE,
-            "source_commits": sorted(set(fixes)),
+            "source_commits": [],
             "add_only": True,
         },
         "engines": [{
@@ -82,7 +83,10 @@ def main():
         "checks": checks,
         "not_applicable": na,
         "notes": "exit 0 holds / exit 1 VIOLATION / exit 2 ANALYSIS-ERROR (anchor vanished or "
-                 "shape not recognised). Known findings: known_findings.json.",
+                 "shape not recognised). No hook or instrumentation commit exists in /repo (hooks.source_commits is "
+                 "empty). The unguarded `fix:` commits in /repo that repair genuine defects are: "
+                 + ", ".join(fixes) + " (one per finding, see known_findings.json: `fixed:` entries suppress "
+                 "nothing; `known` entries F23, F51, F52 are printed as KNOWN-FINDING lines).",
     }
     with open(os.path.join(HERE, "MANIFEST.json"), "w") as f:
         json.dump(man, f, indent=1)
